@@ -258,7 +258,12 @@ def make_scenario(streams, quarantine=()):
                 weekly[r.randrange(7)] = 8
             ov = {(base_day + _dt.timedelta(days=r.randint(-6, 25))).date().isoformat(): r.choice([0, 0, 1, 0.5, 12])
                   for _ in range(r.randint(0, 4))}
-            sc['resources'].append({'name': name, 'kind': 'sim', 'weekly': weekly, 'overrides': ov})
+            res_spec = {'name': name, 'kind': 'sim', 'weekly': weekly, 'overrides': ov}
+            if r.random() < 0.25:
+                users = [t['id'] for t in leaves if t['kw'].get('resource') == name]
+                if users:
+                    res_spec['task_limits'] = {str(i): r.choice([0.5, 1, 2, 3]) for i in r.sample(users, min(len(users), r.randint(1, 2)))}
+            sc['resources'].append(res_spec)
         else:
             sc['resources'].append({'name': name, 'kind': 'real', 'cal': gen_calendar(r, base_day)})
     # future end: a completed task whose end is after the clock
@@ -296,9 +301,12 @@ def make_scenario(streams, quarantine=()):
     ops = [{'op': 'calc', 'sched': 'A', 'fresh': True, 'clock': clock}]
     ro = streams('ops')
     for _ in range(ro.choice([0, 1, 1, 2, 3])):
-        k = ro.choice(['same', 'fresh', 'fail', 'early', 'early', 'other', 'minus'])
+        k = ro.choice(['same', 'fresh', 'fail', 'early', 'early', 'other', 'minus', 'other_wbs'])
         if k in ('minus', 'same') and direction == 'fwd' and not params['balance'] and n >= 2 and clock['kind'] == 'frozen':
             ops.append({'op': 'calc_minus', 'sched': 'A', 'clock': clock, 'remove': ro.choice(names), 'ref': 0})
+        elif k == 'other_wbs' and n >= 2:
+            ops.append({'op': 'calc_other_wbs', 'sched': 'A', 'clock': clock, 'remove': ro.choice(names)})
+            ops.append({'op': 'calc', 'sched': 'A', 'fresh': False, 'clock': clock, 'equal_to': 0})
         elif k == 'same':
             ops.append({'op': 'calc', 'sched': 'A', 'fresh': False, 'clock': clock, 'equal_to': 0})
         elif k == 'fresh':
